@@ -150,9 +150,18 @@ TNonSpelling == LET r == Facts[l] IN
   /\ UNCHANGED <<enumOf, seenAbbr, abbrOf, unitAff, consistent>>
 
 TFinish == /\ l = Len(Facts) + 1 /\ l' = l + 1
-           /\ JsonSerialize(IOEnv.OUT, [bad |-> bad, events |-> Len(Facts),
+           /\ LET keys == SetToSeq(DOMAIN unitAff) IN
+              JsonSerialize(IOEnv.OUT, [bad |-> bad, events |-> Len(Facts),
                                          units |-> Cardinality(DOMAIN unitAff),
-                                         consistent |-> Cardinality(DOMAIN consistent)])
+                                         consistent |-> Cardinality(DOMAIN consistent),
+                                         \* the oracle table for the numeric layer: meaning of every unit symbol
+                                         unit_table |-> [i \in 1..Len(keys) |->
+                                            [type |-> keys[i][1], name |-> keys[i][2],
+                                             mag |-> unitAff[keys[i]].mag,
+                                             has_off |-> unitAff[keys[i]].to.has_off,
+                                             off |-> IF unitAff[keys[i]].to.has_off
+                                                     THEN BagSub(unitAff[keys[i]].to.off_bag, unitAff[keys[i]].mag)
+                                                     ELSE One]]])
            /\ UNCHANGED <<enumOf, seenAbbr, abbrOf, unitAff, consistent, bad>>
 
 Next == TEnum \/ TEnumerator \/ TExtraKey \/ TSpelling \/ TConsistent \/ TRelated \/ TQType \/ TNonSpelling \/ TFinish
